@@ -160,3 +160,81 @@ func RunOn(v *vm.VM, name string, lines []Line) []LineResult {
 	}
 	return res
 }
+
+// CopyState makes the metrics of `to` (a freshly compiled copy of the same
+// program) hold the same label sets, values, timestamps and expiry marks as
+// `from`, using the public datum setters.
+func CopyState(from, to []*metrics.Metric) error {
+	if len(from) != len(to) {
+		return fmt.Errorf("metric count differs: %d vs %d", len(from), len(to))
+	}
+	for i, m := range from {
+		n := to[i]
+		if m.Name != n.Name || m.Type != n.Type {
+			return fmt.Errorf("metric %d differs: %s/%v vs %s/%v", i, m.Name, m.Type, n.Name, n.Type)
+		}
+		// a fresh scalar counter already holds one datum; anything else the copy must not keep
+		for _, lv := range append([]*metrics.LabelValue{}, n.LabelValues...) {
+			if err := n.RemoveDatum(lv.Labels...); err != nil {
+				return err
+			}
+		}
+		for _, lv := range m.LabelValues {
+			d, err := n.GetDatum(lv.Labels...)
+			if err != nil {
+				return err
+			}
+			ts := time.Unix(0, lv.Value.TimeUTC().UnixNano())
+			switch v := lv.Value.(type) {
+			case *datum.Int:
+				datum.SetInt(d, v.Get(), ts)
+			case *datum.Float:
+				datum.SetFloat(d, v.Get(), ts)
+			case *datum.String:
+				datum.SetString(d, v.Get(), ts)
+			default:
+				return fmt.Errorf("unsupported datum type %T", lv.Value)
+			}
+			if lv.Expiry != 0 {
+				if err := n.ExpireDatum(lv.Expiry, lv.Labels...); err != nil {
+					return err
+				}
+			}
+		}
+	}
+	return nil
+}
+
+// FreshPair is the outcome of one line on the long-running VM (A) and on a
+// freshly loaded copy whose metrics hold the same values (B).
+type FreshPair struct {
+	A LineResult `json:"a"`
+	B LineResult `json:"b"`
+}
+
+// RunFresh is property C05 executed literally: VM A processes the whole
+// history; before every line a fresh copy B of the program is compiled, given
+// A's metric values, and processes just that line.
+func RunFresh(name, src string, lines []Line, o RunOpts) ([]FreshPair, error) {
+	ca := Compile(name, src, true)
+	if ca.Obj == nil || ca.Errors != "" {
+		return nil, fmt.Errorf("compile: %s%s", ca.Errors, ca.Panic)
+	}
+	a := vm.New(name, ca.Obj, o.CurrentYear, o.Loc, false, false)
+	var out []FreshPair
+	for i, l := range lines {
+		bn := fmt.Sprintf("%s-fresh%d", name, i)
+		cb := Compile(bn, src, true)
+		if cb.Obj == nil || cb.Errors != "" {
+			return nil, fmt.Errorf("compile fresh: %s%s", cb.Errors, cb.Panic)
+		}
+		b := vm.New(bn, cb.Obj, o.CurrentYear, o.Loc, false, false)
+		if err := CopyState(a.Metrics, b.Metrics); err != nil {
+			return nil, err
+		}
+		ra := RunOn(a, name, []Line{l})
+		rb := RunOn(b, bn, []Line{l})
+		out = append(out, FreshPair{A: ra[0], B: rb[0]})
+	}
+	return out, nil
+}
